@@ -3,9 +3,11 @@
 (* held and later repaired / released (datacake-rpc: net/client.rs,            *)
 (* net/simulation.rs, client.rs; exercised in a turmoil simulation).           *)
 (* The client opens its connection lazily (connect timeout 2 s), may use a      *)
-(* per-request timeout (2 s here) and may have several requests in flight.      *)
-(* Time advances in ticks of 500 ms; a request with a timeout must be answered  *)
-(* or timed out by tick 4 (timeouts are urgent).                                *)
+(* per-request timeout (a number of ticks from TmoTicks, 0 = none; shorter,     *)
+(* equal to and longer than the connect timeout) and may have several requests  *)
+(* in flight.  Time advances in ticks of 500 ms; a request with a timeout of n  *)
+(* ticks must be answered or timed out by tick n (timeouts are urgent),         *)
+(* whether it is still connecting or already sent.                              *)
 (* The model is deliberately permissive about WHICH failure a fault produces    *)
 (* (a partition may break a request or merely delay it); C14 only demands that  *)
 (* every outcome is the handler's reply for that very request, a connection     *)
@@ -13,12 +15,13 @@
 EXTENDS Naturals, Sequences, FiniteSets, TLC, Json
 
 CONSTANTS Reqs,        \* request ids
+          TmoTicks,    \* the timeouts a request may be sent with, in ticks (0 = without timeout)
           MaxFaults, MaxTicks, EmitSched
 
 VARIABLES link,     \* "up" | "held" | "down"
           conn,     \* the lazy connection exists
           st,       \* r -> "idle" | "connecting" | "to_server" | "at_server" | "to_client" | "done"
-          tmo,      \* r -> the request was sent with a timeout
+          tmo,      \* r -> the timeout the request was sent with, in ticks (0 = none)
           age,      \* r -> ticks since it was sent
           out,      \* r -> "none" | "reply" | "ConnectionError" | "Timeout"
           runs,     \* r -> handler executions
@@ -28,7 +31,7 @@ vars == <<link, conn, st, tmo, age, out, runs, faults, ticks, faulted, sched>>
 
 Init ==
   /\ link = "up" /\ conn = FALSE
-  /\ st = [r \in Reqs |-> "idle"] /\ tmo = [r \in Reqs |-> FALSE] /\ age = [r \in Reqs |-> 0]
+  /\ st = [r \in Reqs |-> "idle"] /\ tmo = [r \in Reqs |-> 0] /\ age = [r \in Reqs |-> 0]
   /\ out = [r \in Reqs |-> "none"] /\ runs = [r \in Reqs |-> 0]
   /\ faults = 0 /\ ticks = 0 /\ faulted = FALSE /\ sched = <<>>
 
@@ -69,10 +72,10 @@ ToClient(r) == /\ st[r] = "to_client" /\ link = "up" /\ Finish(r, "reply")
                /\ UNCHANGED <<link, conn, tmo, age, runs, faults, ticks, faulted, sched>>
 Broken(r) == /\ st[r] \in {"to_server", "to_client", "at_server"} /\ faulted /\ Finish(r, "ConnectionError")
              /\ UNCHANGED <<link, conn, tmo, age, runs, faults, ticks, faulted, sched>>
-TimeoutFires(r) == /\ Active(r) /\ tmo[r] /\ age[r] >= 4 /\ Finish(r, "Timeout")
+TimeoutFires(r) == /\ Active(r) /\ tmo[r] > 0 /\ age[r] >= tmo[r] /\ Finish(r, "Timeout")
                    /\ UNCHANGED <<link, conn, tmo, age, runs, faults, ticks, faulted, sched>>
 
-Overdue == \E r \in Reqs : Active(r) /\ tmo[r] /\ age[r] >= 4
+Overdue == \E r \in Reqs : Active(r) /\ tmo[r] > 0 /\ age[r] >= tmo[r]
 \* time only passes while no request can make progress (network and handler steps are fast)
 CanProgress == \E r \in Reqs : \/ st[r] = "at_server"
                                 \/ (link = "up" /\ st[r] \in {"connecting", "to_server", "to_client"})
@@ -85,7 +88,7 @@ Tick ==
 
 Next ==
   \/ \E k \in {"partition", "hold", "repair", "release"} : Fault(k)
-  \/ \E r \in Reqs, t \in BOOLEAN : Send(r, t)
+  \/ \E r \in Reqs, t \in TmoTicks : Send(r, t)
   \/ \E r \in Reqs : ConnectOk(r) \/ ConnectFail(r) \/ ToServer(r) \/ Handle(r) \/ ToClient(r) \/ Broken(r) \/ TimeoutFires(r)
   \/ Tick
 Spec == Init /\ [][Next]_vars
@@ -95,7 +98,7 @@ Spec == Init /\ [][Next]_vars
 C14_AtMostOnce == \A r \in Reqs : runs[r] <= 1
 C14_Outcome == \A r \in Reqs : st[r] = "done" => out[r] \in {"reply", "ConnectionError", "Timeout"}
 C14_ReplyMeansHandled == \A r \in Reqs : out[r] = "reply" => runs[r] = 1
-C14_TimeoutBound == \A r \in Reqs : (Active(r) /\ tmo[r]) => age[r] <= 4
+C14_TimeoutBound == \A r \in Reqs : (Active(r) /\ tmo[r] > 0) => age[r] <= tmo[r]
 C14_NoFaultNoFailure == \A r \in Reqs : (st[r] = "done" /\ ~faulted) => out[r] = "reply"
 
 \* (G) maximal external schedules
